@@ -292,11 +292,11 @@ def run(ctx) -> None:
     # ---------------------------------------------------------------- R4
     gt = prog.function("v2version._is_cal_gt")
     ctx.visit(gt.fq)
-    loops = [n for n in walk_no_nested(gt.node) if isinstance(n, ast.For)]
-    ok = len(loops) == 1 and unparse(loops[0].iter) == "version.V2CalendarInfo._fields"
-    ctx.check("R4", ok, "_is_cal_gt iterates version.V2CalendarInfo._fields", "v2version._is_cal_gt: does not compare all calendar fields in declared order", "", loc=gt.loc())
     from checks.c05 import none_filter_rule
-    none_filter_rule(ctx, "v2version", "R4")
+    if not none_filter_rule(ctx, "v2version", "R4"):
+        loops = [n for n in walk_no_nested(gt.node) if isinstance(n, ast.For)]
+        ok = len(loops) == 1 and unparse(loops[0].iter) == "version.V2CalendarInfo._fields"
+        ctx.check("R4", ok, "_is_cal_gt iterates version.V2CalendarInfo._fields", "v2version._is_cal_gt: does not compare all calendar fields in declared order", "", loc=gt.loc())
     order = prog.klass("version.V2CalendarInfo").fields
     idx = {f: i for i, f in enumerate(order)}
     ctx.require(all(f in idx for f in ("year_y", "year_g", "quarter", "month", "dom", "doy", "week_w", "week_u", "week_v")), "V2CalendarInfo fields changed")
